@@ -114,7 +114,7 @@ def schema_c10(rng, idx):
     return {"name": nm, "entities": ents}
 
 
-def schema_c11(rng, idx, ninv=None, complex_ref=False, mi=False, deep=False, redecl=False, diamond=False):
+def schema_c11(rng, idx, ninv=None, complex_ref=False, mi=False, deep=False, redecl=False, diamond=False, inh=None):
     """targets with 1-3 inverse attributes (own and inherited, aggregate and single), several referrer entities,
     a referrer subtype, referrers that also mention the target through another attribute"""
     nm = f"iv{idx}"
@@ -124,6 +124,7 @@ def schema_c11(rng, idx, ninv=None, complex_ref=False, mi=False, deep=False, red
             {"name": "tsub", "sup": "tg", "attrs": [("d", "optstr", None)], "inverses": []},
             {"name": "rel", "attrs": [("one", "optref", "tg"), ("many", "setref", "tg"), ("oth", "optref", "tg")]},
             {"name": "rsub", "sup": "rel", "attrs": [("z", "int", None)]},
+            {"name": "rsub2", "sup": "rsub", "attrs": [("zz", "int", None)]},
             {"name": "qel", "attrs": [("q1", "optref", "tg"), ("qs", "listref", "tg"), ("w", "optref", "tsub")]},
             ]
     if complex_ref:
@@ -171,6 +172,13 @@ def schema_c11(rng, idx, ninv=None, complex_ref=False, mi=False, deep=False, red
     if not redecl:
         rng.shuffle(cands)
     used = cands[:ninv]
+    if inh is not None and ninv >= 2 and not complex_ref and not redecl:
+        # (several inverses in one entity) x (inverted attribute INHERITED by the inverted entity): one level up (rsub.one is
+        # rel's), two levels up (rsub2), through a second supertype (m2 SUBTYPE OF (doc, rel)); at a chosen position among its siblings
+        pos, kind = inh
+        ic = {"one-up": ("rsub", "one"), "two-up": ("rsub2", "many"), "second-super": ("m2", "oth") if mi else ("rsub2", "oth")}[kind]
+        used = [u for u in used if u != ic][:ninv - 1]
+        used.insert(min(pos, len(used)), ic)
     for i, (over, attr) in enumerate(used):
         owner = "tsub" if (shape == 1 and i == ninv - 1) else "tg"
         ent({"entities": ents}, owner)["inverses"].append((f"inv{i}", True, over, attr))
